@@ -44,3 +44,6 @@ func rtExplore(bound int, stop func() bool, mk func() func(), check func(x *exec
 	panic("exploration needs the scheduler build")
 }
 func rtRun(prefix []int, body func()) *execT { panic("needs the scheduler build") }
+
+// rtSeq runs f (free-running build: the real synchronisation primitives are live anyway).
+func rtSeq(f func()) { f() }
